@@ -482,6 +482,19 @@ func ToQuantity(ctx *expr.Context, input system.Collection, args ...expr.Express
 			return system.Collection{result}, nil
 		}
 		res := strings.SplitN(string(value), " ", 2)
+		if len(res) < 2 { // no unit, or no space between number and unit
+			unit := DefaultQuantityUnit
+			if keyword := matches[regex.SubexpIndex("time")]; keyword != "" {
+				unit = keyword
+			} else if quoted := matches[regex.SubexpIndex("unit")]; quoted != "" {
+				unit = quoted
+			}
+			result, err := system.ParseQuantity(matches[regex.SubexpIndex("value")], unit)
+			if err != nil {
+				return system.Collection{}, nil
+			}
+			return system.Collection{result}, nil
+		}
 		unit := strings.Trim(res[1], "'")
 		result := system.MustParseQuantity(res[0], unit)
 		return system.Collection{result}, nil
